@@ -346,7 +346,11 @@ func renderLayout(m map[string]interface{}) string {
 	size := maxPosLayout + 200
 	buf := []byte(strings.Repeat(" ", size))
 	put := func(pos int, text string) { copy(buf[pos-1:], text) }
-	put(1, "//go:build convergen\n\npackage e2e\n\n")
+	if truthy(m, "generateIsPackageDoc") {
+		put(1, "//go:build convergen\n\n//go:generate x\npackage e2e\n\n")
+	} else {
+		put(1, "//go:build convergen\n\npackage e2e\n\n")
+	}
 	comment := func(pos, lines int, name string) {
 		p := pos
 		for i := 0; i < lines; i++ {
